@@ -374,6 +374,13 @@ func (m *Machine) strEq(a, b Str) *Term {
 		if m.freshAtoms[at] && (m.eng.vocab[cb] || m.eng.vocab["$"+cb]) {
 			return tFalse
 		}
+		if strings.HasPrefix(at.op, "line!") {
+			// a template line is a JSON object text: never empty / blank
+			if strings.TrimSpace(cb) == "" || !strings.HasPrefix(strings.TrimSpace(cb), "{") {
+				return tFalse
+			}
+			panic(abort("comparison of a template line with constant text"))
+		}
 	}
 	if ok2 && at.kind == KApp && at.op == "str.++" {
 		// constant == prefix ++ freshAtom ++ suffix: a user field name never completes a
